@@ -67,7 +67,7 @@ impl Scenario for C16 {
       }
     };
     let acts = gen_script(rng, n_hot, true, &ScriptCfg { len: (4, 30), cut: (0, 1), post_terminal: true });
-    serde_json::to_value(PCase { threads_flavour: rng.chance(1, 2), fifo: true, n_hot, root, acts }).unwrap()
+    serde_json::to_value(PCase { threads_flavour: rng.chance(1, 2), fifo: true, n_hot, root, acts, sub_at: 0 }).unwrap()
   }
   fn run(&self, case: &Value) -> Result<Outcome, String> {
     let case: PCase = serde_json::from_value(case.clone()).map_err(|e| e.to_string())?;
@@ -79,28 +79,32 @@ impl Scenario for C16 {
     let mut violation = None;
     let term = run.recs.iter().find(|r| r.ev.is_terminal());
     if let Some(p) = &run.panic {
-      violation = Some(Violation { rule: "c16.panic".into(), site: site.clone(), detail: p.clone() });
+      // the simulator's own resource budget is not a finding
+      if !p.contains("WouldHang") {
+        violation = Some(Violation { rule: "c16.panic".into(), site: site.clone(), detail: p.clone() });
+      }
     } else if let Some(t) = term {
-      // the script may advance the clock without running the executor: the
-      // period starts counting when the executor gets to run again
-      let bound = t.t.max(run.script_end_ns) + (2 * max_dur_ms(&case.root).max(1) + 1) * MS;
       if !run.idle || run.live_tasks_end > 0 || run.live_timers_end > 0 {
         violation = Some(Violation {
           rule: "c16.producer-not-retired".into(),
           site: site.clone(),
           detail: format!(
-            "`{}`: the subscriber got its terminal at {}ms but the executor never becomes idle ({} live task(s), {} armed timer(s) after the budget)",
+            "`{}`: the subscriber got its terminal at {}ms but the executor is still not idle 2 virtual seconds after the script ended ({} live task(s), {} armed timer(s)): running a scheduler until idle would not terminate",
             run.trace.trim(),
             t.t / MS,
             run.live_tasks_end,
             run.live_timers_end
           ),
         });
-      } else if run.idle_at.map_or(false, |i| i > bound) {
+      } else if run.ticks.iter().filter(|s| **s > t.seq_out).count() > run.ticker_instances {
         violation = Some(Violation {
-          rule: "c16.retired-late".into(),
+          rule: "c16.ticked-after-terminal".into(),
           site: site.clone(),
-          detail: format!("`{}`: terminal at {}ms, executor idle only at {}ms (allowed: {}ms)", run.trace.trim(), t.t / MS, run.idle_at.unwrap() / MS, bound / MS),
+          detail: format!(
+            "`{}`: {} interval tick(s) were produced after the subscriber's terminal had been delivered (at most one per periodic source is what \"retires within one period\" allows)",
+            run.trace.trim(),
+            run.ticks.iter().filter(|s| **s > t.seq_out).count()
+          ),
         });
       } else {
         let late_pulls = run.pulls.iter().filter(|s| **s > t.seq_out).count();
